@@ -249,7 +249,7 @@ func run(c Case) kit.Outcome {
 				// without pipelining Go returns only after the write: wait for the gate first
 				if expectGate {
 					if takeGate() != cs {
-						return fail(timing("harness-gate", "request %d never reached the write gate", idx))
+						return fail(kit.Undecided("request %d never reached the write gate", idx))
 					}
 					h("start %d %s seq=%d (at write gate)", idx, op.Form, cs.seq)
 					registered++
@@ -279,7 +279,7 @@ func run(c Case) kit.Outcome {
 				}()
 				if expectGate {
 					if g := takeGate(); g != cs && !(g != nil && g.form == "ping" && cs.form == "ping") {
-						return fail(timing("harness-gate", "request %d never reached the write gate", idx))
+						return fail(kit.Undecided("request %d never reached the write gate", idx))
 					}
 					registered++
 					if c.Pipelining {
@@ -322,7 +322,7 @@ func run(c Case) kit.Outcome {
 				if gateBusy > 0 && !connDead {
 					nx := takeGate()
 					if nx == nil {
-						return fail(timing("harness-gate", "no queued request reached the write gate although %d are queued", gateBusy))
+						return fail(kit.Undecided("no queued request reached the write gate although %d are queued", gateBusy))
 					}
 					registered++
 					h("queued %d seq=%d reaches the write gate", nx.idx, nx.seq)
